@@ -290,6 +290,15 @@ func (g *gen) request() (map[string]any, meaning) {
 					content = ""
 				}
 				b := map[string]any{"type": "tool_result", "tool_use_id": id, "content": content}
+				// a tool that produced no output: the API allows the content to be absent or null
+				switch rng.Intn(10) {
+				case 0:
+					delete(b, "content")
+					content = ""
+				case 1:
+					b["content"] = nil
+					content = ""
+				}
 				if rng.Intn(5) == 0 {
 					b["is_error"] = true
 				}
@@ -621,7 +630,7 @@ func invalidate(rng *rand.Rand, doc map[string]any) (string, []byte) {
 func TestC12(t *testing.T) {
 	world.Quiet()
 	run := rep.New("C12", "exploration",
-		"seeded grammar-based generator of Anthropic Messages requests (content as string or block list; text / tool_use / tool_result / image blocks with results before, after and between text; system as string, block list or absent; 0-4 tools; every tool_choice form; optional scalars present/absent/on their bounds; nested and unicode tool arguments; structured tool results) translated by the exported TransformRequest and, for a sample, through the full handler to a recording non-native backend; both sides are mapped to a canonical conversation by an independent extractor and compared; invalid documents (Validate rules, JSON syntax/type errors) must give 400 + Anthropic error object and no backend record; unknown fields may be rejected or translated faithfully. distinct = distinct generated request (hash of the document)")
+		"seeded grammar-based generator of Anthropic Messages requests (content as string or block list; text / tool_use / tool_result / image blocks with results before, after and between text; system as string, block list or absent; 0-4 tools; every tool_choice form; optional scalars present/absent/on their bounds; nested and unicode tool arguments; structured, empty, absent and null tool results) translated by the exported TransformRequest and, for a sample, through the full handler to a recording non-native backend; both sides are mapped to a canonical conversation by an independent extractor and compared; invalid documents (Validate rules, JSON syntax/type errors) must give 400 + Anthropic error object and no backend record; unknown fields may be rejected or translated faithfully. distinct = distinct generated request (hash of the document)")
 	run.Assume("normalisations: adjacent text of one role is concatenated; inside one assistant turn the order of text relative to tool calls is not compared (an OpenAI assistant message cannot express it), the order of tool calls is; in user turns the order of tool results and text is compared; images are not compared")
 	rng := rand.New(rand.NewSource(rep.Seed()))
 	g := &gen{rng: rng}
